@@ -56,6 +56,9 @@ def check(prog, run):
     run.rule("R6", "stts/ctts describe as many samples as stsz/stco: the run-length builders add every element to a run (C03.R6 instances)")
     from . import c03
     c03.rle_rule(prog, run, "R6")
+    run.rule("R7", "one track per configured stream: the builder enables the writer's audio track iff an audio codec other than None was configured (C04.R12 table)")
+    from . import c04
+    c04.builder_audio_table(prog, run, "R7")
     run.rule("R1", "box constructor: size field == 8 + len(payload) == emitted width; header is size ++ fourcc")
     run.rule("R2", "containers tile: container payloads hold child boxes only (after the prescribed full-box / sample-entry prefix)")
     run.rule("R3", "grammar: per configuration, each container has its mandatory children exactly once, optional ones at most once, nothing else; top-level structure of file / init segment / media segment")
